@@ -326,6 +326,9 @@ def rollout(tier: str, prop: str) -> list[dict]:
         dict(env="MountainCar", L=900, stack=[["TimeLimit", 300]]),
         dict(env="ContinuousMountainCar", L=900, stack=[["TimeLimit", 400], ["RescaleAction", -2.0, 2.0]], eager=True),
         dict(env="Acrobot", L=600, stack=[["TimeLimit", 300]]),
+        # non-default goal condition: with a minimum goal velocity near the speed limit the car passes the flag WITHOUT terminating
+        # and reaches the right wall (with the default configuration the right wall lies behind a terminal state)
+        dict(env="ContinuousMountainCar", L=900, kwargs={"goal_velocity": 0.069}, stack=[["TimeLimit", 400]]),
         dict(env="Pendulum", L=500, stack=[["TimeLimit", 50], ["ClipAction"]]),
         dict(env="Pendulum", L=300, kwargs={"tsit5": True}, stack=[["ClipObservation"], ["TimeLimit", 40], ["ClipReward", -1.0, 1.0]]),
         dict(env="Acrobot", L=300, kwargs={"tsit5": True}),
